@@ -128,3 +128,16 @@ p["rule"] += " | concget: per case 150 rounds of 8 goroutines released from a ba
 p = _ensure("C02", "Destination URL = rule destination + wildcard capture; query kept verbatim")
 p["streams"] += [S("concroute", 16, 64, 2)]
 p["rule"] += " | concroute: 8 goroutines x 300 requests with different queries routed through one router at once (destinations with and without $1); every outgoing request must carry its own query (free-running: search support)"
+
+# C07 in schedules: a hit that overlaps a refresh is one stored response, never headers of one and body of another
+_PIN_GSM = T("Pins.getStorageMetadataShape", "pin", "getStorageMetadata reads xattr and size through the descriptor storage.Get opened (xattr.FGet, f.Stat): whole function body pinned")
+p = _ensure("C07", "A cache hit replays exactly the response that was stored")
+p["streams"] += [S("sched", 300, 4000, 4)]
+p["rule"] += " | sched: the schedule replay of C12/C13 with origin versions of different lengths and validators; oracle: every served body carries the ETag of its own version (view M<b>/<e> = body of one stored response under the headers of another)"
+p["modules"] += ["RrProofs.Props.C12", "RrProofs.Pins"]
+p["theorems"] += [_PIN_GSM]
+for _pid in ("C12", "C14"):
+    p = PROPS[_pid]
+    if "RrProofs.Pins" not in p["modules"]:
+        p["modules"] += ["RrProofs.Pins"]
+    p["theorems"] += [_PIN_GSM]
